@@ -140,10 +140,62 @@ def run(ctx, scale=1):
             if hits:
                 out_fail.append({"input": {"kind": "limit-refusal", "password": pw, "maximum_connections": 1 + i % 2}, "what": "password fragment %r in record %r (per-user connection limit reached)" % (hits[0][4], hits[0][3]), "signature": "C20:limit-refusal-leak"})
 
+    async def slow_manager(cap):
+        """user managers that bound their own calls with the library's `with_timeout` (what AbstractUserManager's
+        `timeout` argument is for) and overrun it, or fail, while the password is in their hands: whatever the server
+        then logs - message, exception text, traceback - must not carry it"""
+
+        def make(kind, delay):
+            class Manager(aioftp.MemoryUserManager):
+                def __init__(self, users):
+                    super().__init__(users, timeout=0.05)
+
+                @aioftp.with_timeout
+                async def authenticate(self, user, password):
+                    if kind == "slow":
+                        await asyncio.sleep(delay)
+                    elif kind == "raises":
+                        raise RuntimeError("backend of the user database is down")
+                    return await super().authenticate(user, password)
+
+                @aioftp.with_timeout
+                async def get_user(self, login):
+                    if kind == "slow-user":
+                        await asyncio.sleep(delay)
+                    return await super().get_user(login)
+
+            return Manager
+
+        for i, kind in enumerate(("slow", "raises", "slow-user", "fast") * scale):
+            stored, c1 = c20.make_password(rng, "bare")
+            given, c2 = c20.make_password(rng, ("bare", "percent", "nonascii")[i % 3])
+            if i % 2:
+                given, c2 = stored, c1
+            manager = make(kind, 0.3)([aioftp.User("bob", stored)])
+            server = aioftp.Server(manager)
+            await server.start("127.0.0.1", 0)
+            cap.take()
+            try:
+                try:
+                    await asyncio.wait_for(c20._raw_session(server.server_port, [b"USER bob\r\n", ("PASS %s\r\n" % given).encode("utf-8"), b"PWD\r\n"]), 3)
+                except Exception:  # noqa
+                    pass
+                await asyncio.sleep(0.05)
+            finally:
+                await server.close()
+            recs = cap.take()
+            res.cases += 1
+            res.count("slow_user_manager:" + kind)
+            res.distinct.add(("slow-manager", kind, i % 2))
+            hits = c20.canary_hits(recs, c1 + c2)
+            if hits:
+                out_fail.append({"input": {"kind": "user-manager-under-with_timeout", "manager": kind, "stored": stored, "given": given}, "what": "password fragment %r in a %s record of %s (%s): %r" % (hits[0][4], hits[0][1], hits[0][0], hits[0][2], hits[0][3][-300:]), "signature": "C20:user-manager-failure-leak"})
+
     async def main(cap):
         await scripted(cap)
         await mismatch(cap)
         await limits(cap)
+        await slow_manager(cap)
 
     with c20._Installed() as cap:
         asyncio.run(main(cap))
